@@ -273,6 +273,7 @@ func checkUploadCase(c UploadCase, r *Recorder) error {
 			os.MkdirAll(filepath.Join(locDir, stepName, "inner"), 0o755)
 			os.WriteFile(filepath.Join(locDir, stepName, "inner", "f"), []byte("x"), 0o644)
 		case "dst-squatted":
+			os.RemoveAll(filepath.Join(dstDir, stepName)) // an earlier copy of this history may have left a file there
 			os.MkdirAll(filepath.Join(dstDir, stepName), 0o755)
 			os.WriteFile(filepath.Join(dstDir, stepName, "squatter"), []byte("x"), 0o644)
 		case "dst-missing":
